@@ -75,6 +75,25 @@ class Facts:
                 self.classes[st.name] = ClassInfo(st)
             elif isinstance(st, ast.Assign) and len(st.targets) == 1 and isinstance(st.targets[0], ast.Name):
                 self._assign(st.targets[0].id, st.value, st)
+            elif isinstance(st, ast.Assign) and all(isinstance(t, ast.Name) for t in st.targets):
+                # A = B = <value>
+                for t in st.targets:
+                    self._assign(t.id, st.value, st)
+            elif (isinstance(st, ast.Assign) and len(st.targets) == 1 and isinstance(st.targets[0], (ast.Tuple, ast.List))
+                  and all(isinstance(e, ast.Name) for e in st.targets[0].elts)):
+                # A, B, C = <sequence of constants> (a tuple display, range(n), ...): one constant per name
+                names = [e.id for e in st.targets[0].elts]
+                vals = try_fold(st.value, self.consts)
+                if isinstance(st.value, (ast.Tuple, ast.List)) and len(st.value.elts) == len(names) and not any(isinstance(e, ast.Starred) for e in st.value.elts):
+                    for n_, e in zip(names, st.value.elts):
+                        self._assign(n_, e, st)
+                elif isinstance(vals, (list, tuple)) and len(vals) == len(names):
+                    for n_, v_ in zip(names, vals):
+                        self.assign_nodes[n_] = st
+                        self.consts[n_] = v_
+                else:
+                    for n_ in names:
+                        self.assign_nodes[n_] = st
             elif isinstance(st, ast.Expr) and isinstance(st.value, ast.Call):
                 self._module_call(st.value)
         for ci in self.classes.values():
